@@ -118,6 +118,7 @@ class Printer:
         self.dropped = []               # dropped statements (evidence)
         self.loops = 0
         self.ret_ctype = 'void'
+        self.ret_is_ref = False         # function returns a C++ reference: `return x;` prints as `return &x;`
         self.may_throw = False
         self.protos = {}
         self.tmp = 0
@@ -360,6 +361,9 @@ class Printer:
             return '(' + self.expr(inner[0]) + ')'
         if k == 'SubstNonTypeTemplateParmExpr':
             return self.expr(inner[-1])
+        if k == 'ConstantExpr' and str(n.get('value')) in ('true', 'false') and strip_cv(qual(n['type'])) == 'bool':
+            # a boolean constant expression (`if constexpr` condition) prints as the value clang evaluated it to
+            return '1' if str(n['value']) == 'true' else '0'
         if k in TRANSPARENT:
             return self.expr(inner[0])
         if k == 'IntegerLiteral':
@@ -813,7 +817,7 @@ class Printer:
         else:
             rc = self.ctype_q(rett)
         self.ret_ctype = rc
-        self.ret_is_ref = rett.rstrip().endswith('&') and d.get('kind') != 'CXXConstructorDecl'
+        self.ret_is_ref = (not ret_override and rett.rstrip().endswith('&') and d.get('kind') != 'CXXConstructorDecl')
         ps = []
         if self.self_struct:
             ps.append(f'{self.self_struct}* self')
